@@ -166,6 +166,54 @@ fn run_impl(i: &Inp) -> Got {
     }
 }
 
+/// The same evaluation, but as the LAST of a sequence of evaluations on one thread: the decision must
+/// be a function of its four inputs, whatever was evaluated before (memoised intermediate values,
+/// thread-local or global state).  The primers share all but one parameter with the input.
+fn run_after(primers: &[Inp], i: &Inp) -> Got {
+    let seq: Vec<(f64, [u8; 64], u64, u64)> =
+        primers.iter().chain(std::iter::once(i)).map(|p| (p.phi, ev_bytes(&p.ev), p.stake, p.total)).collect();
+    let (tx, rx) = std::sync::mpsc::channel();
+    std::thread::spawn(move || {
+        let mut last = Got::Panic;
+        for (phi, ev, stake, total) in seq {
+            let r = std::panic::catch_unwind(move || mithril_stm::verif_export::is_lottery_won(phi, ev, stake, total));
+            last = match r {
+                Ok(b) => Got::Ret(b),
+                Err(_) => Got::Panic,
+            };
+        }
+        let _ = tx.send(last);
+    });
+    match rx.recv_timeout(std::time::Duration::from_secs(WATCHDOG_SECS)) {
+        Ok(g) => g,
+        Err(_) => {
+            TIMEOUTS.fetch_add(1, std::sync::atomic::Ordering::SeqCst);
+            Got::Timeout
+        }
+    }
+}
+/// primer sequences for an input: each differs from it in exactly one parameter (or in none)
+fn primer_sets(i: &Inp) -> Vec<(&'static str, Vec<Inp>)> {
+    let with = |f: &dyn Fn(&mut Inp)| {
+        let mut p = i.clone();
+        f(&mut p);
+        p
+    };
+    let mut out: Vec<(&'static str, Vec<Inp>)> = vec![];
+    let t2 = i.total.saturating_mul(3).max(i.total);
+    let t3 = (i.total / 7).max(i.stake).max(1);
+    out.push(("same stake and phi_f, other total stakes", vec![with(&|p| p.total = t2), with(&|p| p.total = t3)]));
+    let s2 = (i.stake / 2 + 1).min(i.total);
+    let s3 = i.total - (i.total - i.stake) / 3;
+    out.push(("same total and phi_f, other stakes", vec![with(&|p| p.stake = s2), with(&|p| p.stake = s3)]));
+    let f2 = if i.phi > 0.5 { i.phi / 2.0 } else { (i.phi * 2.0 + 0.05).min(0.95) };
+    out.push(("same stakes, other phi_f", vec![with(&|p| p.phi = f2), with(&|p| p.phi = 0.2)]));
+    let e2 = &i.ev / BigInt::from(3u8);
+    let e3 = clamp_ev(&i.ev + (&pow2(512) - &i.ev) / BigInt::from(2u8));
+    out.push(("same stakes and phi_f, other draws, then itself", vec![with(&|p| p.ev = e2.clone()), with(&|p| p.ev = e3.clone()), i.clone()]));
+    out
+}
+
 /// `(phi_f - 1.0).abs() < f64::EPSILON`, the code's shortcut test
 fn shortcut(phi: f64) -> bool {
     (phi - 1.0).abs() < f64::EPSILON
@@ -531,7 +579,24 @@ fn main() {
         let Some(id) = sink.wants() else { continue };
         let i = &item.inp;
         let got = run_impl(i);
-        let v = judge(&item, got);
+        let mut v = judge(&item, got);
+        // purity: the same decision as the last of a sequence of related evaluations on one thread
+        let mut history_note = serde_json::json!(null);
+        if in_domain(i) && matches!(got, Got::Ret(_)) {
+            for (what, primers) in primer_sets(i) {
+                if !primers.iter().all(in_domain) {
+                    continue;
+                }
+                let again = run_after(&primers, i);
+                if again != got {
+                    history_note = serde_json::json!({"primers": what, "primer_inputs": primers.iter().map(|p| serde_json::json!({"phi_f": format!("{:e}", p.phi), "stake": p.stake, "total": p.total, "ev": p.ev.to_string()})).collect::<Vec<_>>(), "alone": format!("{:?}", got), "after": format!("{:?}", again)});
+                    if v.holds != Some(false) {
+                        v = Verdict { holds: Some(false), why: Some(format!("the decision is not a function of its inputs: evaluated alone {:?}, evaluated after earlier evaluations on the same thread ({}) {:?}", got, what, again)), known: None };
+                    }
+                    break;
+                }
+            }
+        }
         let term = model_term(i);
         let impl_obs = match got {
             Got::Ret(b) => coq::ores_ok(coq::ob(b)),
@@ -552,6 +617,7 @@ fn main() {
                 "ev": i.ev.to_string(), "ev_over_2^512": ratio_f64(&i.ev, &pow2(512)),
                 "stake": i.stake, "total": i.total, "c": format!("{:e}", code_c(i.phi)), "x": x,
                 "won": won_json,
+                "history": history_note,
                 "mono_base": item.base.as_ref().map(|(r, b)| serde_json::json!({"relation": r, "stake": b.stake, "ev": b.ev.to_string()})),
             }),
             model: if term.is_empty() { None } else { Some(term) },
